@@ -13,6 +13,12 @@ import GM.Proof.QuoteSimFrame
 namespace GM.Blocks
 open GM GM.Text
 
+/-- the parsers that are not list parsers -/
+def BP.notList : BP → Bool
+  | .list => false
+  | .listItem => false
+  | _ => true
+
 structure UNode (n : Node) : Prop where
   kind : n.kind ≠ .list ∧ n.kind ≠ .listItem
   kids : 0 ∉ n.children
